@@ -33,6 +33,7 @@ var c18plain = [][2]string{
 	{"/vault/customer-x/", "$X/"},
 	{"corp.example.com/secret-team", "$T"}, // a directory that is not an absolute path (module-relative names of -trimpath builds)
 	{"/srv/ci/app$nightly/w", "~work-tree-of-the-nightly-build"}, // a '$' in the directory name; a short form that is longer than the directory
+	{"/opt/secret", "$S2"}, // the same directory as the first entry under another short form: registering it again replaces the form
 	{"${CWD}", "~proj"}, // the directory the process was started in (the key of the built-in "." rule), under a name of the user's own
 }
 
@@ -49,6 +50,17 @@ var c18regexps = [][2]string{
 	{`^/data/[0-9]+/`, "#"},
 	{`/Volumes/[^/]+/`, "~"}, // the built-in one
 	{`^/mnt/([a-z]+)/`, "@$1:"},
+}
+
+var c18readable, c18readableKnown bool
+
+// c18tablesReadable: can the harness read the mapping tables of this tree (asked once, before anything else)?
+func c18tablesReadable() bool {
+	if !c18readableKnown {
+		c18readable = !slog.VerifTry(func() { slog.VerifKnownPathMap(); slog.VerifKnownPathRegexps() })
+		c18readableKnown = true
+	}
+	return c18readable
 }
 
 const c18badPattern = "/broken/([^/]+"
@@ -429,7 +441,7 @@ func init() {
 			return nil
 		}
 		t := c18build(cas.Ops)
-		if cas.Via == "tables" {
+		if cas.Via == "tables" && c18tablesReadable() {
 			in := c18tables{plain: slog.VerifKnownPathMap(), re: slog.VerifKnownPathRegexps()}
 			if in.plain == nil {
 				in.plain = map[string]string{}
@@ -512,8 +524,14 @@ func c18run(c *Ctx) {
 			break
 		}
 		t := c18build(nd.ops)
-		// conformance of the table model: the implementation's tables equal the model's
-		implT := c18tables{plain: slog.VerifKnownPathMap(), re: slog.VerifKnownPathRegexps()}
+		// conformance of the table model: the implementation's tables equal the model's (where the tables can be read at all:
+		// a tree that stores them in another shape is judged by what Safety / SafetyFiles / the caller field return only)
+		implT := t
+		if c18tablesReadable() {
+			implT = c18tables{plain: slog.VerifKnownPathMap(), re: slog.VerifKnownPathRegexps()}
+		} else if si == 0 {
+			c.Note("the mapping tables of this tree cannot be read by the harness (another shape): the table-semantics clause is not compared, the lookups are")
+		}
 		if implT.plain == nil {
 			implT.plain = map[string]string{}
 		}
@@ -523,6 +541,9 @@ func c18run(c *Ctx) {
 		}
 		// every transition out of this state: the tables after the operation equal the model's
 		for _, o := range ops {
+			if !c18tablesReadable() {
+				break
+			}
 			hist := append(append([]c18op{}, nd.ops...), o)
 			tn := c18build(hist)
 			in := c18tables{plain: slog.VerifKnownPathMap(), re: slog.VerifKnownPathRegexps()}
